@@ -963,7 +963,8 @@ def check_purity(case, res, model_ans=None):
                     res.violate('post-%s-unknown-name-handling' % post_tag(cfg['post']), 'a name that is not a database phase was not reported as ValueError',
                                 cdesc, str(got), 'ValueError')
             if flag and ids:
-                stored.append(ids[0])       # the first point's record is looked up / added before the exception
+                if ids[0] not in stored:
+                    stored.append(ids[0])   # the first point's record is looked up / added before the exception
                 rec = ht.retrieveFromHashTable(np.array(P[ids[0]][0], dtype=np.float64), np.float64(P[ids[0]][1]))
                 if rec is not None and id(rec) not in seen_rec:
                     seen_rec[id(rec)] = ids[0]; keep.append(rec)
